@@ -41,9 +41,13 @@ def input_shapes(case, net, maps):
     has_pwl = any(c["kind"] == "pwl" for c in case["costs"])
     any_q_slope = any(c.get("cq1_eur_per_mvar") or c.get("cq2_eur_per_mvar2") for c in case["costs"]) or \
         any(c["kind"] == "pwl" and c["power_type"] == "q" for c in case["costs"])
+    vm = net.res_bus.va_degree
     for c in case["costs"]:
         e = by_type[c["et"]][c["k"]]
-        if not gen._dispatchable(e):
+        idx = maps[c["et"]][c["k"]]
+        buses = [net.dcline.at[idx, "from_bus"], net.dcline.at[idx, "to_bus"]] if c["et"] == "dcline" else [net[c["et"]].at[idx, "bus"]]
+        dead = any(math.isnan(float(vm.at[b])) for b in buses)
+        if not gen._dispatchable(e) or dead:
             shapes.add("undispatched-entry")
         if c["kind"] == "poly":
             even = c.get("cp2_eur_per_mw2") or c.get("cp0_eur")
@@ -66,6 +70,9 @@ def check(case):
     ac = opt["mode"] == "ac"
     res.label("mode:" + opt["mode"])
     net, maps = gen.build(case)
+    dead_dc = gen.dcline_dead_terminal(net)
+    if dead_dc:
+        res.label("dcline-dead-terminal")
     try:
         with silence():
             gen.run_opf(net, opt)
@@ -73,6 +80,8 @@ def check(case):
         kind, what = gen.opf_outcome(e)
         if kind == "skip":
             res.skipped = what
+        elif dead_dc:
+            res.fail("dcline-dead-terminal/crash", error=repr(e)[:300], where=what, opt=opt)
         else:
             res.fail(what, error=repr(e)[:300], opt=opt)
         return res
@@ -116,6 +125,10 @@ def check(case):
         elif out["status"] == "infeasible":
             res.fail("dc-optimum/converged-on-infeasible-problem/%s" % ("+".join(sorted(shapes)) or "other"), res_cost=got,
                      why=out.get("why"))
+    if dead_dc and res.failures:
+        detail = [[sg, d] for sg, d in res.failures][:4]
+        del res.failures[:]
+        res.fail("dcline-dead-terminal/wrong-result", failures=detail)
     # ---- classification
     kinds = set()
     for c in case["costs"]:
